@@ -502,14 +502,7 @@ func (s *Lexer) getNextToken() (*Token, error) {
 			current_state = SSTRING_DOUBLE
 		} else if current_state == SSTRING_D_ESCAPE {
 			if ch == 'x' {
-				next_ch := s.read()
-				next_next_ch := s.read()
-				if IsHex(next_ch) && IsHex(next_next_ch) {
-					buf.WriteRune(HexToAscii(next_ch, next_next_ch))
-				} else {
-					s.unread(2)
-					buf.WriteRune('x')
-				}
+				s.readHexEscape(&buf)
 			} else {
 				buf.WriteRune(getEscapedRune(ch))
 			}
@@ -518,14 +511,7 @@ func (s *Lexer) getNextToken() (*Token, error) {
 			current_state = SSTRING_SINGLE
 		} else if current_state == SSTRING_S_ESCAPE {
 			if ch == 'x' {
-				next_ch := s.read()
-				next_next_ch := s.read()
-				if IsHex(next_ch) && IsHex(next_next_ch) {
-					buf.WriteRune(HexToAscii(next_ch, next_next_ch))
-				} else {
-					s.unread(2)
-					buf.WriteRune('x')
-				}
+				s.readHexEscape(&buf)
 			} else {
 				buf.WriteRune(getEscapedRune(ch))
 			}
@@ -780,6 +766,30 @@ func (s *Lexer) getNextToken() (*Token, error) {
 		return nil, NewLexError(token, "Unknown token")
 	}
 	return token, nil
+}
+
+// readHexEscape is called after `\x`: two hex digits denote that byte, anything
+// else leaves a plain 'x' and keeps every following character.
+// Only one rune can be unread, so the digits are looked at one at a time.
+func (s *Lexer) readHexEscape(buf *bytes.Buffer) {
+	first := s.read()
+	if !IsHex(first) {
+		if first != 0 {
+			s.unread_last()
+		}
+		buf.WriteRune('x')
+		return
+	}
+	second := s.read()
+	if !IsHex(second) {
+		if second != 0 {
+			s.unread_last()
+		}
+		buf.WriteRune('x')
+		buf.WriteRune(first)
+		return
+	}
+	buf.WriteRune(HexToAscii(first, second))
 }
 
 func getEscapedRune(ch rune) rune {
